@@ -338,14 +338,15 @@ def build_arm(spec):
 # ------------------------------------------------------------------------------------------------
 
 def small_or_generic_angles(maxang=PI - 1e-3, p_tiny=True):
-    """Rotation angles in [0, maxang]: mostly generic, a little mass at 0, at the 1e-6 NearZero cut-off
-    (both sides) and at maxang."""
-    parts = [G.floats(1e-3, maxang)] * 6 + [st.sampled_from([0.0, PI / 2, 1.0, maxang])]
-    if p_tiny:
-        parts.append(st.one_of(G.log_uniform(1e-9, 1e-4),
-                               st.sampled_from([1e-7, 1e-6, math.nextafter(1e-6, 0), math.nextafter(1e-6, 1),
-                                                2e-6])))
-    return st.one_of(*parts)
+    """Rotation angles in [0, maxang]: mostly generic; ~4 % at the 1e-6 NearZero cut-off (both sides), a little
+    mass at 0, pi/2 and maxang."""
+    generic = st.one_of(G.floats(1e-3, maxang), G.floats(1e-3, maxang), G.floats(1e-3, maxang),
+                        st.sampled_from([0.0, PI / 2, 1.0, maxang]))
+    if not p_tiny:
+        return generic
+    tiny = st.one_of(G.log_uniform(1e-9, 1e-4),
+                     st.sampled_from([1e-7, 1e-6, math.nextafter(1e-6, 0), math.nextafter(1e-6, 1), 2e-6]))
+    return st.integers(0, 24).flatmap(lambda k: tiny if k == 0 else generic)
 
 
 @st.composite
@@ -372,12 +373,16 @@ def poses6(draw, maxnorm=5.0, maxang=PI - 1e-3, identity_weight=0, tiny=True):
 
 @st.composite
 def limit_pairs(draw, n):
-    """(mins, maxs), length n: each joint gets a non-empty interval; kinds: symmetric, one-sided (0 outside),
-    narrow, wider than [-2pi, 2pi] (never binding)."""
+    """(mins, maxs), length n: each joint gets a non-empty interval; kinds: symmetric, narrow around 0, generic
+    containing 0, wider than [-2pi, 2pi] (never binding) and -- for about a third of the arms -- one-sided
+    intervals that exclude 0 (the home vector is then outside the limits)."""
+    kinds = ["sym", "sym", "narrow0", "wide", "generic0"]
+    if draw(st.integers(0, 2)) == 0:
+        kinds = kinds + ["pos", "neg", "narrow"]
     mins = np.zeros(n)
     maxs = np.zeros(n)
     for i in range(n):
-        kind = draw(st.sampled_from(["sym", "sym", "pos", "neg", "narrow", "wide", "generic"]))
+        kind = draw(st.sampled_from(kinds))
         if kind == "sym":
             a = draw(G.floats(0.2, TWO_PI))
             lo, hi = -a, a
@@ -390,11 +395,14 @@ def limit_pairs(draw, n):
         elif kind == "narrow":
             lo = draw(G.floats(-3.0, 3.0))
             hi = lo + draw(G.floats(1e-3, 0.1))
+        elif kind == "narrow0":
+            lo = -draw(G.floats(0.0, 0.05))
+            hi = draw(G.floats(1e-3, 0.05))
         elif kind == "wide":
             lo, hi = -draw(G.floats(TWO_PI, 10.0)), draw(G.floats(TWO_PI, 10.0))
         else:
-            lo = draw(G.floats(-TWO_PI, TWO_PI - 0.1))
-            hi = draw(G.floats(lo + 0.05, TWO_PI + 0.5))
+            lo = -draw(G.floats(0.0, TWO_PI))
+            hi = draw(G.floats(0.05, TWO_PI + 0.5))
         mins[i], maxs[i] = lo, hi
     return (mins, maxs)
 
@@ -459,8 +467,8 @@ def arm_specs(draw, kinds=("sixr", "urdf", "random"), base="any", nmin=1, nmax=7
 
 NMAX = 8   # theta codes carry this many entries; an arm uses the first n
 
-_CODE_KINDS = ["u", "u", "u", "u", "lo", "hi", "lo_out", "hi_out", "lo_in", "hi_in", "zero", "far_lo", "far_hi",
-               "tiny"]
+_CODE_KINDS = (["u"] * 12 + ["lo", "hi", "lo_out", "hi_out", "lo_in", "hi_in", "zero", "far_lo", "far_hi"] * 2
+               + ["tiny"])
 
 
 def theta_codes(nmax=NMAX):
